@@ -615,6 +615,70 @@ def install(reg):
                                 f(z3.Concat(Dt, bt)) == z3.Concat(f(Dt), z3.Unit(PV.PBytes(sha(bt))))))
     SF["leaves_step"] = s_leaves_step
 
+    def _valid_padding(nl, npad, first, amount):
+        """BEP 52 padding of one piece's leaf layer: a full piece has none; a short last piece of a multi-piece file is filled up
+        to a full piece; a file of at most one piece is filled up to the next power of two of its own leaf count"""
+        return z3.Or(z3.And(nl == amount, npad == 0),
+                     z3.And(nl < amount, z3.Not(first), nl + npad == amount),
+                     z3.And(nl < amount, first, npad >= 0, nl + npad < 2 * nl))
+
+    def s_piece_roots(p, data, amount):
+        """BEP 52 piece layer of a byte string: for each successive piece (amount 16 KiB blocks; the last may be short) the merkle
+        root of its leaves with the padding of _valid_padding.  Defined by ground unfolding from the right (proots_step)."""
+        f = p.engine.uf("piece_roots", BYTES, I, PVSEQ)
+        d, a = p.bytes_term(data), p.as_int(amount)
+        t = f(d, a)
+        key = ("piece_roots", d.get_id(), a.get_id())
+        if key not in p.ghost:
+            p.ghost[key] = True
+            p.assume(z3.Implies(d == z3.Empty(BYTES), t == z3.Empty(PVSEQ)))
+            p.assume((z3.Length(t) == 0) == (d == z3.Empty(BYTES)))
+        return VBox(PV.PList(t))
+    SF["piece_roots"] = s_piece_roots
+
+    def s_proots_step(p, P_, D_, npad, amount, k):
+        """ground instance of the definition of piece_roots: for piece-aligned P and a next piece D (0 < len D <= piece length)
+             piece_roots(P ++ D) == piece_roots(P) ++ [ mroot(leaves(D) ++ zero_digests(npad)) ]
+        for the padding count npad that _valid_padding allows (it is unique: L4, two powers of two in [n, 2n) are equal).
+        Alignment of P is stated with its witness k (len P == k * piece length): no modulus by a symbolic value"""
+        f = p.engine.uf("piece_roots", BYTES, I, PVSEQ)
+        lv = p.engine.uf("leaves", BYTES, PVSEQ)
+        Pt, Dt, n, a, kt = p.bytes_term(P_), p.bytes_term(D_), p.as_int(npad), p.as_int(amount), p.as_int(k)
+        s_piece_roots(p, VBytes(Pt), VInt(a))
+        s_piece_roots(p, VBytes(z3.Concat(Pt, Dt)), VInt(a))
+        s_leaves(p, VBytes(Dt))
+        nl = z3.Length(lv(Dt))
+        first = Pt == z3.Empty(BYTES)
+        isp = p.engine.is_pow2(p, nl + n)
+        pad = SF["zero_digests"](p, VInt(n))
+        blocks = z3.Concat(lv(Dt), PV.items(pad.t))
+        root = SF["mroot"](p, VBox(PV.PList(blocks))).t
+        ok = z3.And(kt >= 0, z3.Length(Pt) == kt * (a * 16384), z3.Length(Dt) > 0, z3.Length(Dt) <= a * 16384,
+                    _valid_padding(nl, n, first, a), z3.Implies(z3.And(nl < a, first), isp))
+        return VBool(z3.Implies(ok, f(z3.Concat(Pt, Dt), a) == z3.Concat(f(Pt, a), z3.Unit(PV.PBytes(root)))))
+    SF["proots_step"] = s_proots_step
+
+    def s_hybrid_pieces(p, data, pl, pad):
+        """v1 piece list of one file of a hybrid torrent: SHA-1 of each successive piece of the file, the short last piece
+        zero-extended to a full piece exactly when padding is declared (pad)"""
+        f = p.engine.uf("hybrid_pieces", BYTES, I, B, PVSEQ)
+        d = p.bytes_term(data)
+        t = f(d, p.as_int(pl), p.truth(pad))
+        p.assume(z3.Implies(d == z3.Empty(BYTES), t == z3.Empty(PVSEQ)))
+        return VBox(PV.PList(t))
+    SF["hybrid_pieces"] = s_hybrid_pieces
+
+    def s_hpieces_step(p, P_, D_, pl, pad, k):
+        """ground instance of the definition of hybrid_pieces, unfolding from the right"""
+        f = p.engine.uf("hybrid_pieces", BYTES, I, B, PVSEQ)
+        sha = p.engine.uf("sha1", BYTES, BYTES)
+        Pt, Dt, n, pd, kt = p.bytes_term(P_), p.bytes_term(D_), p.as_int(pl), p.truth(pad), p.as_int(k)
+        z = SF["zeros"](p, VInt(z3.If(pd, n - z3.Length(Dt), 0)))
+        piece = sha(z3.Concat(Dt, p.bytes_term(z)))
+        ok = z3.And(kt >= 0, z3.Length(Pt) == kt * n, z3.Length(Dt) > 0, z3.Length(Dt) <= n)
+        return VBool(z3.Implies(ok, f(z3.Concat(Pt, Dt), n, pd) == z3.Concat(f(Pt, n, pd), z3.Unit(PV.PBytes(piece)))))
+    SF["hpieces_step"] = s_hpieces_step
+
     def s_hash_acc(p, hobj):
         h = p.deref(hobj)
         if not isinstance(h, HHash):
